@@ -29,7 +29,7 @@ def nleaves(v):
 
 
 def cases(rng, tier):
-    n = 2000 if tier == 'quick' else 60000
+    n = 15000 if tier == 'quick' else 400000
     out = []
     for i in range(n):
         a = G.gen_array(rng, depth=rng.choice([1, 2, 3, 3, 4]), canonical_too=False, special=False,
